@@ -36,6 +36,9 @@ type Exec struct {
 	maxPaths  int
 	npaths    int
 	trusted   map[string]bool // trusted-base items encountered
+	repoDir   string
+	merged    map[*ssa.Function]*mergedLoops
+	callPos   token.Pos // position of the call being inlined (consumed by pushFrame)
 	renamed   map[string]map[string]string // per function: contract identifiers remapped to the current variable names
 	specSigs  map[string]*specSig
 	warnings  []string
